@@ -455,6 +455,61 @@ static_assert(Seg<SegmentedArrayItemCountFunc::sqrt, 1>::Settings::itemCountFunc
 static_assert(!std::is_base_of<std::forward_iterator_tag, std::iterator_traits<InIt>::iterator_category>::value
 	&& !internal::IsForwardIterator17<InIt>::value, "InIt selects the input-iterator overload");
 
+// ---- translator validation of the GENERATED guards (Gen_Guards*.v): the real function is called on an array with exactly
+// n items and capacity cap, in a forked child; reported: ok [g=<allocated?>] | abort | exception  (+ TOUCHED if a rejected
+// call changed the element sequence).   line: gd <fn> <n> <cap> <index> <count>
+#if ELEM == 0
+template<class A, bool showG, class F> static void guardChild(size_t n, size_t cap, F call)
+{
+	std::fflush(stdout);
+	int fds[2]; if (pipe(fds) != 0) { std::puts("pipe-failed"); return; }
+	pid_t pid = fork();
+	if (pid == 0)
+	{
+		close(fds[0]); gPipeFd = fds[1];
+		int devnull = open("/dev/null", O_WRONLY); if (devnull >= 0) dup2(devnull, 2);
+		typedef Runner<A, MomoOps<A>> R;
+		R* r = new R();
+		if (cap > 0) r->c.Reserve(cap);
+		for (size_t k = 0; k < n; ++k) { Elem e = mk(ll(10 + k)); r->c.AddBack(e); }
+		static std::string pre; pre = r->seq();
+		gRunner<A, MomoOps<A>> = r;
+		gStateFn = [] () { return std::string(gRunner<A, MomoOps<A>>->seq() == pre ? "" : "TOUCHED"); };
+		std::signal(SIGABRT, onAbort);
+		size_t allocs0 = gAllocs;
+		std::string st;
+		alarm(20);      // a runaway call (e.g. a huge Reserve) must not hang the check
+		try { call(r->c); st = showG ? "ok g=" + std::to_string(int(gAllocs != allocs0)) + "\n" : std::string("ok\n"); }
+		catch (const std::exception&) { st = std::string("exception ") + (r->seq() == pre ? "" : "TOUCHED") + "\n"; }
+		ssize_t wr = write(gPipeFd, st.data(), st.size()); (void)wr;
+		_exit(0);
+	}
+	close(fds[1]);
+	std::string got; char buf[512]; ssize_t m;
+	while ((m = read(fds[0], buf, sizeof buf)) > 0) got.append(buf, size_t(m));
+	close(fds[0]);
+	int status = 0; waitpid(pid, &status, 0);
+	while (!got.empty() && (got.back() == '\n' || got.back() == ' ')) got.pop_back();
+	std::puts(got.c_str());
+}
+static void runGuard(const std::string& line)
+{
+	std::istringstream is(line); std::string g, fn; unsigned long long n, cap, index, count; is >> g >> fn >> n >> cap >> index >> count;
+	typedef Array<Elem, CountMM, ArrayItemTraits<Elem, CountMM>, ArraySettings<0, false>> A;   // Reserve(cap) gives exactly cap
+	typedef SegmentedArray<Elem, CountMM, SegmentedArrayItemTraits<Elem, CountMM>, SegmentedArraySettings<SegmentedArrayItemCountFunc::cnst, 2>> S;
+	size_t i = size_t(index), c = size_t(count);
+	if (fn == "remove") guardChild<A, true>(n, cap, [=] (A& a) { internal::ArrayShifter<A>::Remove(a, i, c); });
+	else if (fn == "insnogrow") guardChild<A, true>(n, cap, [=] (A& a) { Elem e = mk(5); internal::ArrayShifter<A>::InsertNogrow(a, i, c, e); });
+	else if (fn == "insert") guardChild<A, true>(n, cap, [=] (A& a) { Elem e = mk(5); a.Insert(i, c, e); });
+	else if (fn == "rb") guardChild<A, true>(n, cap, [=] (A& a) { a.RemoveBack(c); });
+	else if (fn == "abn") guardChild<A, true>(n, cap, [=] (A& a) { Elem e = mk(5); a.AddBackNogrow(e); });
+	else if (fn == "idx") guardChild<A, true>(n, cap, [=] (A& a) { (void)a[i]; });
+	else if (fn == "seginsert") guardChild<S, false>(n, 0, [=] (S& a) { Elem e = mk(5); a.Insert(i, c, e); });
+	else if (fn == "segrb") guardChild<S, false>(n, 0, [=] (S& a) { a.RemoveBack(c); });
+	else std::puts("unsupported-guard");
+}
+#endif
+
 template<class C> static void runMomoRej(const std::vector<std::string>& ops) { runRejected<C, MomoOps<C>>(ops); }
 template<class C> static void runStdRej(const std::vector<std::string>& ops) { runRejected<C, StdOps<C>>(ops); }
 
@@ -471,6 +526,9 @@ int main()
 			std::printf("%s %d %d\n", kElem, int(IT::isNothrowMoveConstructible), int(IT::isNothrowRelocatable));
 			continue;
 		}
+#if ELEM == 0
+		if (cont == "gd") { runGuard(line); continue; }
+#endif
 		if (cont == "grow")
 		{	// translator validation: the real ArraySettings::GrowCapacity.  line: grow <growOnReserve> <capacity> <minNew> <cause> <linear>
 			std::istringstream is2(line); std::string g; unsigned long long gor, cap, mn, cause, lin; is2 >> g >> gor >> cap >> mn >> cause >> lin;
